@@ -75,6 +75,10 @@ func LitShapes() []LitShape {
 	m := append([]int{}, seq(0, 255)...)
 	m = append(m, 256, 257, 285)
 	add("skew-all-literals", m, Skew(len(m), 6), false)
+	// untrimmed variants (HLIT = 29 with trailing zero lengths): with run-length coded headers the zero run of the
+	// unused length codes crosses the literal/distance boundary when the distance code starts with unused symbols
+	add("small-balanced-untrimmed", small, Balanced(len(small), 0), true)
+	add("two-untrimmed", []int{'a', 256}, []uint8{1, 1}, true)
 	return out
 }
 
